@@ -1460,7 +1460,10 @@ class FileStorage(
             last = p64(max(u64(self._stop) - 1, 0))
             if stop is None or stop > last:
                 stop = last
-        return FileIterator(self._file_name, start, stop)
+        with self._lock:
+            # (a pack renames the data file away and the packed file into
+            # place under this lock: don't open the name in between)
+            return FileIterator(self._file_name, start, stop)
 
     def lastInvalidations(self, count):
         with self._lock:
